@@ -17,6 +17,8 @@ class C02(rowgen.RowGenProp):
                 "Wheatley.C02.notation_round_trip",
                 "Wheatley.C02.generator_rings_the_notation",
                 "Wheatley.C02.permute_is_the_change", "Wheatley.C02.plain_rows_denoted"]
+    # the command line: what of the built configuration this property is about
+    cli_fields = ['source']
     level_text = ("theorems: row k = start row transformed by the first k changes read cyclically from the start "
                   "index (unbounded k, any notation/stage/start index); course lengths of the built-in methods on "
                   "every supported stage (finite tables by decide +kernel). correspondence: notation strings "
